@@ -1,6 +1,6 @@
 """C09 (reduced form) — the grammar front-end is total. Engine M executes the real pest_meta::parse_and_optimize (checked-in
 meta-parser, validate_pairs, consume_rules, validate_ast, optimize) and pest_generator::docs::consume from MIR on every text of
-up to N bytes and on near-miss grammar templates with symbolic holes; no path may panic, every reported error must carry a
+up to N bytes and on near-miss grammar templates with symbolic holes; no path may panic or abort (a native run that kills its process is reported), every reported error must carry a
 location inside the text and is rendered by the real Error::format (compared with the native rendering)."""
 import os, time, json, re
 import z3
@@ -30,6 +30,8 @@ def templates():
          # several errors at once (the error list is sorted and merged): every pair of kinds of the AST-validation stage
          'a = { "x"{3, 2} ~ ("" | "y") }', 'a = { "x"{<H>,<H>} }\nb = { a{5, 1} ~ (""*)<P> }', 'a = { a ~ "x" }\nb = { "y"{2, 1}<P> }', 'a = { ("" | "x") ~ (""*) }\nb = { b<P> }',
          'a = { (!"x")* ~ ("x" | "") ~ a? }\nWHITESPACE = { ""<P> }', 'COMMENT = { "x"* }\na = { a{<H>} | ("a" | "a"*)+ }', 'a = { b{<H>,1} ~ b{1,<H>} }\nb = { "x"? }',
+         # left recursion that an earlier rule merely leads into, under the skip idiom of an atomic rule (the optimizer inlines through it)
+         'a = @{ (!b ~ ANY)* }\nb = { "x" | c }\nc = { "y" | b<P> }', 'a = @{ (!(b | "z") ~ ANY)* ~ b }\nb = { c<P> }\nc = { b | "y" }',
          # concrete near-misses (no hole): out-of-range numbers
          'a = { PEEK[99999999999..] }', 'a = { PEEK[..-99999999999] }', 'a = { b{99999999999} }', 'a = { b{1,99999999999} }', 'a = { b{4294967296,} }', "a = { '\\u{110000}'..'z' }", 'a = { "\\u{D800}" }', 'a = { b{2,1} }', 'a = { b{0} }']
     out = []
@@ -114,7 +116,12 @@ def explore(args):
 
     for W, res in ex.explore(body):
         if isinstance(res, Exception):
-            rows.append({"event": f"{type(res).__name__}: {str(res)[:300]}"}); continue
+            if type(res).__name__ == "StepLimit":
+                # the step / call-depth budget ran out: unbounded recursion or iteration on this path; the native replay decides
+                # (a stack overflow aborts the process, which the statement forbids)
+                res = {"res": "NONTERM", "msg": str(res)[:200]}
+            else:
+                rows.append({"event": f"{type(res).__name__}: {str(res)[:300]}"}); continue
         m = W.get_model()
         ev = lambda b: m.eval(b, model_completion=True).as_long() if is_sym(b) else b
         res["text"] = bytes(ev(b) for b in text).hex() or "-"
@@ -139,14 +146,15 @@ def run(ctx):
     ctx.log(f"parse_and_optimize from MIR: free texts 0..{N} bytes + {len(tm)} templates: {paths} paths, {time.time()-t0:.1f}s")
     # native replay of every path
     lines = [row["text"] for r in res for row in r["rows"] if row.get("text")]
-    reps = native.run_lines("grammar", lines, timeout=3000) if lines else []
+    reps = native.run_lines("grammar", lines, timeout=3000, tolerant=True) if lines else []
     rendered_checked = 0
     k = 0; enc = []; events = []; validated = 0; counts = {"OK": 0, "ERR": 0, "PANIC": 0}
     for r in res:
         for row in r["rows"]:
             if row.get("event"): events.append(f"{r['spec']!r}: {row['event']}"); continue
             rep = reps[k]; k += 1
-            nat = "OK" if rep.startswith("OK") else "PANIC" if rep.startswith("PANIC") else "ERR"
+            nat = "OK" if rep.startswith("OK") else "PANIC" if rep.startswith("PANIC") else "ABORT" if rep.startswith("ABORT") else "ERR"
+            if nat == "ABORT" and row["res"] == "NONTERM": nat = row["res"] = "PANIC"; rep = "PANIC the process aborts: " + rep[6:]
             if nat != row["res"]:
                 enc.append({"text": row["text"], "pred": row["res"], "native": rep[:200]}); continue
             if nat == "ERR" and "rendered" in row and not row.get("ph"):
@@ -186,8 +194,8 @@ def run(ctx):
 def replay(ctx, path):
     d = json.load(open(path))
     native.build()
-    rep = native.run_lines("grammar", [d["text"]])[0]
+    rep = native.run_lines("grammar", [d["text"]], tolerant=True)[0]
     print(rep[:300])
-    if rep.startswith("PANIC"):
+    if rep.startswith(("PANIC", "ABORT")):
         print(f"VIOLATION property=C09 replay={path}"); return 1
     print("replay: no panic"); return 0
